@@ -144,6 +144,7 @@ type statsM struct {
 	TraceHash      uint64
 	SyncHash       uint64
 	SyncEvents     uint64
+	AtomicPoints   uint64
 	Blocked        uint64
 	ReaderPendingW uint64
 	OverlapSame    uint64
@@ -563,6 +564,7 @@ func (a *agg) add(l *lineM) {
 	a.probes["overlap_same_symbol"] += r.Stats.OverlapSame
 	a.probes["preempt_inside_splat_window"] += r.Stats.PreemptInWin
 	a.probes["task_blocked_on_lock"] += r.Stats.Blocked
+	a.probes["atomic_map_pool_decision_points"] += r.Stats.AtomicPoints
 	a.probes["reader_blocked_by_pending_writer"] += r.Stats.ReaderPendingW
 	for k, v := range r.OpKinds {
 		a.opKinds[k] += v
